@@ -84,9 +84,33 @@ def is_number(v):
     return isinstance(v, (int, float)) and not isinstance(v, bool)
 
 
+def documented_value(s, n):
+    """The progression the class doc-strings describe (before the documented rounding to 4 decimals); None for author
+    tables.  LinearCredit: 1 up to decrease_credit_after, then linearly down to minimum_credit over decrease_credit_steps
+    attempts, constant afterwards; GeometricCredit: 1, x, x^2, ...; ReciprocalCredit: 1, 1/2, 1/3, ..."""
+    k = s['kind']
+    if k in ('geometric', 'geometric-default'):
+        f = s.get('factor', 0.75)
+        return 1.0 if n == 1 else float(f) ** (n - 1)
+    if k == 'reciprocal':
+        return 1.0 / n
+    if k in ('linear', 'linear-default'):
+        after, steps, mn = s.get('after', 1), s.get('steps', 4), s.get('min', 0.2)
+        d = n - after
+        if d <= 0:
+            return 1.0
+        return float(mn) if d >= steps else 1 + (mn - 1) * d / steps
+    return None
+
+
+COMPANIONS = [{'kind': 'geometric', 'factor': 0.1}, {'kind': 'geometric', 'factor': 0.9}, {'kind': 'geometric-default'},
+              {'kind': 'linear', 'after': 2, 'steps': 3, 'min': 0.5}, {'kind': 'linear-default'}, {'kind': 'reciprocal'}]
+
+
 def judge_schedule(spec, rec):
     s = spec['sched']
     sched = make_schedule(s)
+    first_walk = {}
     rec.cls('sched-grid/' + s['kind'])
     prev = None
     vals = set()
@@ -105,9 +129,27 @@ def judge_schedule(spec, rec):
         if prev is not None and v > prev:
             raise Violation('schedule/increasing', 'value rises from %r (attempt %d) to %r (attempt %d)'
                             % (prev, n - 1, v, n), attempt=n)
+        ref = documented_value(s, n)
+        if ref is not None and abs(v - ref) > 5.0001e-5:
+            raise Violation('schedule/not-the-documented-progression', '%r at attempt %d gives %r; the documented '
+                            'progression gives %r (rounded to 4 decimals)' % (s, n, v, ref), attempt=n)
         prev = v
         vals.add(v)
-    rec.calls(top)
+        first_walk[n] = v
+    # the value for an attempt is a function of the configuration and the attempt alone: other schedule objects used
+    # in between, a second object with the same configuration, and a different order of questions change nothing
+    for c in COMPANIONS:
+        other = make_schedule(c)
+        for n in (3, 2, 7, 1, 40):
+            other(n)
+    again = make_schedule(s)
+    for n in list(range(top, 0, -7)) + [2, 3, 1, 5]:
+        v1, v2 = again(n), sched(n)
+        if v1 != first_walk[n] or v2 != first_walk[n]:
+            raise Violation('schedule/value-depends-on-history', '%r at attempt %d: %r on the first walk, then %r (same '
+                            'object) and %r (second object, same configuration) after other schedules were used'
+                            % (s, n, first_walk[n], v2, v1), attempt=n)
+    rec.calls(top + 30 + 2 * (top // 7 + 5))
     rec.nontrivial(len(vals) >= 3)
     if len(vals) >= 3:
         rec.cls('sched-grid/at-least-3-levels')
